@@ -448,6 +448,10 @@ func (w *World) doNodeRestart(in Intent) {
 	if len(w.Nodes) == 0 {
 		return
 	}
+	if in.Op == "mid" { // the crash happens inside the next block, at stage N
+		w.MidCrash = &MidCrash{Node: in.Pick, Pick: in.N}
+		return
+	}
 	n := w.Nodes[in.Pick%len(w.Nodes)]
 	if n.InBlock {
 		return
